@@ -386,3 +386,26 @@ func findCalls(info *types.Info, n ast.Node, lits bool, match func(fn *types.Fun
 }
 
 func posLess(a, b token.Pos) bool { return a < b }
+
+// funcLitOf returns the function a binding expression denotes as a function literal: the literal
+// itself, or - for a method value / function name of the module - a literal made of the
+// declaration's type and body (same nodes, so positions and type information are the original).
+func funcLitOf(p *Program, info *types.Info, e ast.Expr) *ast.FuncLit {
+	e = ast.Unparen(e)
+	if fl, ok := e.(*ast.FuncLit); ok {
+		return fl
+	}
+	var obj types.Object
+	switch x := e.(type) {
+	case *ast.Ident:
+		obj = info.Uses[x]
+	case *ast.SelectorExpr:
+		obj = info.Uses[x.Sel]
+	}
+	if fn, ok := obj.(*types.Func); ok {
+		if fd := p.funcDecls[fn.Origin()]; fd != nil && fd.Body != nil {
+			return &ast.FuncLit{Type: fd.Type, Body: fd.Body}
+		}
+	}
+	return nil
+}
